@@ -53,6 +53,11 @@ class Check(CheckBase):
             s['hashing'] = dict(gen.HASHERS[(i // len(gen.CIPHERS)) % len(gen.HASHERS)])
             cases.append({'seed': r.randrange(1 << 30), 'settings': s, 'flavour': 'async' if i % 2 else 'sync',
                           'reuse_repos': i % 3 != 0, 'nops': r.randint(6, 10) if quick else r.randint(6, 24)})
+        # payloads beyond 1 GiB through the cipher adapters (chunk lengths and snapshot bodies of that size are accepted);
+        # about 3 GB of memory and 5 s per case
+        for i, name in enumerate(['aes_gcm', 'chacha20_poly1305']):
+            if True:
+                cases.insert(i, {'kind': 'large-payload', 'cipher': name, 'size': 2**30 + 5000 + i, 'seed': i, 'timeout': 900})
         return cases
 
     def worker_setup(self):
@@ -74,7 +79,45 @@ class Check(CheckBase):
             unmet.append('too few keys emitted on stdout')
         return unmet
 
+    def _large_payload(self, case):
+        from .. import rep  # noqa: F401
+        from replicat.utils import adapters
+        from cryptography.hazmat.primitives.ciphers import aead as _aead
+        real = getattr(_aead, {'aes_gcm': 'AESGCM', 'chacha20_poly1305': 'ChaCha20Poly1305'}[case['cipher']])
+        uses = {}
+
+        class Recording:
+            def __init__(self, key, *a, **kw):
+                self._k, self._r = bytes(key), real(key, *a, **kw)
+
+            def encrypt(self, nonce, data, aad=None):
+                uses[(self._k, bytes(nonce))] = uses.get((self._k, bytes(nonce)), 0) + 1
+                return self._r.encrypt(nonce, data, aad)
+
+            def decrypt(self, nonce, data, aad=None):
+                return self._r.decrypt(nonce, data, aad)
+        setattr(_aead, real.__name__, Recording)
+        v = []
+        try:
+            adapter = getattr(adapters, case['cipher'])()
+            key = bytes(range(adapter.key_bytes))
+            data = bytes(case['size'])
+            blob = adapter.encrypt(data, key)
+            back = adapter.decrypt(blob, key)
+            if bytes(back) != data:
+                v.append({'what': f'a payload of {case["size"]} bytes does not survive encrypt + decrypt', 'mechanism': None, 'witness': {}})
+            worst = max(uses.values(), default=0)
+            if worst > 1:
+                v.append({'what': f'encrypting one payload of {case["size"]} bytes used the same (key, nonce) pair for {worst} AEAD '
+                                  f'encryptions', 'mechanism': None, 'witness': {'cipher': case['cipher'], 'aead_calls': sum(uses.values())}})
+        finally:
+            setattr(_aead, real.__name__, real)
+        return {'verdict': 'violated' if v else 'held', 'classes': [f'large-payload|{case["cipher"]}'],
+                'counters': {'large_payloads': 1, 'encrypt_calls': sum(uses.values())}, 'violations': v}
+
     def run_case(self, case):
+        if case.get('kind') == 'large-payload':
+            return self._large_payload(case)
         from .. import hist, refimpl, rep
         from replicat.utils import adapters
         r = random.Random(case['seed'])
